@@ -443,6 +443,7 @@ package scanner
 //@   tag C01 C14
 //@   requires file != nil
 //@   modifies nothing
+//@   freshfields
 //@   ghostensures ret.open == 0 && ret.lastEnd == 0 - 1
 //@   ensures fresh(ret) && NextInv(ret) && ret.file == file && ret.curIndex == 0 && ret.step == stateRoot
 
